@@ -745,7 +745,7 @@ func parseClause(rest, pos string) (*Clause, error) {
 	}
 	if strings.HasPrefix(rest, "{") {
 		j := strings.Index(rest, "}")
-		cl.Props = strings.Fields(strings.ReplaceAll(rest[1:j], ",", " "))
+		cl.Props = append([]string{"!explicit"}, strings.Fields(strings.ReplaceAll(rest[1:j], ",", " "))...)
 		rest = strings.TrimSpace(rest[j+1:])
 	}
 	e, err := parseExpr(rest, pos)
